@@ -16,6 +16,7 @@ import BtcVerif.Proofs.StreamUnordered
 import BtcVerif.Proofs.StreamVariant
 import BtcVerif.Proofs.StreamComplete
 import BtcVerif.Proofs.Reorder
+import BtcVerif.Proofs.ReorderComplete
 import BtcVerif.Model.Rpc
 
 namespace BtcVerif.Props.C16
@@ -239,6 +240,18 @@ theorem reorderer_success_is_exactly_the_range (fromHeight toHeight first : Nat)
     (run fromHeight toHeight first evs).out.length = toHeight - fromHeight := by
   have := reorderer_success_is_a_full_chain fromHeight toHeight first evs hdone
   omega
+
+open BtcVerif.Model.Reorder in
+/-- **completeness**: the blocks of an honest node (block k of the range names block k−1), arriving in ANY order
+— any permutation of the heights — and followed by anything (the closed queue), end in success with exactly
+the range handed out in chain order.  Together with `reorderer_success_is_a_full_chain`: the ordering buffer
+succeeds iff it has the chain. -/
+theorem reorderer_complete (fromHeight m : Nat) (arrival : List Nat) (hperm : arrival.Perm (List.range' 1 m))
+    (tail : List Ev) :
+    (run fromHeight (fromHeight + m) 1 (arrival.map (fun k => Ev.blk (honest k)) ++ tail)).res = .done ∧
+    (run fromHeight (fromHeight + m) 1 (arrival.map (fun k => Ev.blk (honest k)) ++ tail)).out =
+      (List.range' 1 m).map honest :=
+  run_complete fromHeight m arrival hperm tail
 
 open BtcVerif.Model.Reorder in
 /-- completeness, for every range: an honest node whose blocks arrive in their turn ends in success with the
